@@ -239,10 +239,12 @@ def plan(tier, seed):
         (corner("unit8", prefix=A.GL, name="unit8-eom-two-channels",
                 eom=dict(controlled_beams=["BLUE", "RED"], limiting_beam="BLUE")), A.eom_full(l="l"), 3),
     ]
+    slow = (corner("unit8", prefix=[("declare", "g", "rydberg_global")], name="eom-slower-than-channel", bw=30, eom=dict(mod_bandwidth=8)), ef, 3)
     if tier == "thorough":
-        worlds = [(w, a, d + 2) for w, a, d in worlds[:2]] + [(worlds[2][0], worlds[2][1], 4)]
+        worlds = [(w, a, d + 2) for w, a, d in worlds[:2]] + [(worlds[2][0], worlds[2][1], 4), (slow[0], ef, 4)]
     else:
         worlds[seed % 2] = (worlds[seed % 2][0], ef, 4)
+        worlds.append(slow)
     return worlds
 
 
